@@ -379,24 +379,118 @@ def pairs_model(chk, fi: FuncInfo, loop: ast.For) -> PairsModel:
     return m
 
 
+_norm_cache: Dict[int, FuncInfo] = {}
+
+
+def normalised(fi: FuncInfo) -> FuncInfo:
+    """A copy of the function for the rules that look at what is built after the loops: the function's own nested single-purpose
+    helpers are inlined, a comprehension / generator over a literal tuple of alternatives is written out member by member, and
+    `a, b = (X, Y)` becomes two assignments - `base_phosphates, base_riboses = ([...] for contacts, cls, enum in ((p, P, E), (r, R, F)))`
+    reads like the two list comprehensions it stands for."""
+    if id(fi.node) in _norm_cache:
+        return _norm_cache[id(fi.node)]
+    from sa.inline import inline_in_function
+
+    node = copy.deepcopy(fi.node)
+    helpers = {n.name: n for n in node.body if isinstance(n, ast.FunctionDef) and not n.decorator_list}
+    if helpers:
+        try:
+            inline_in_function(node, helpers, None, [])
+        except Exception:
+            node = copy.deepcopy(fi.node)
+
+    def expand(comp: ast.AST) -> Optional[List[ast.expr]]:
+        if not isinstance(comp, (ast.GeneratorExp, ast.ListComp)) or len(comp.generators) != 1:
+            return None
+        g = comp.generators[0]
+        if g.ifs or g.is_async or not isinstance(g.iter, (ast.Tuple, ast.List)) or len(g.iter.elts) > 6:
+            return None
+        out = []
+        for x in g.iter.elts:
+            env: Dict[str, ast.expr] = {}
+            if isinstance(g.target, ast.Name):
+                env[g.target.id] = x
+            elif isinstance(g.target, ast.Tuple) and isinstance(x, ast.Tuple) and len(x.elts) == len(g.target.elts) and all(isinstance(t, ast.Name) for t in g.target.elts):
+                env.update({t.id: v for t, v in zip(g.target.elts, x.elts)})
+            else:
+                return None
+            out.append(SX.subst(comp.elt, env))
+        return out
+
+    def walk(block: List[ast.stmt]) -> List[ast.stmt]:
+        res: List[ast.stmt] = []
+        for st in block:
+            for f in ("body", "orelse", "finalbody"):
+                b = getattr(st, f, None)
+                if isinstance(b, list) and b and isinstance(b[0], ast.stmt) and not isinstance(st, (ast.FunctionDef, ast.ClassDef)):
+                    setattr(st, f, walk(b))
+            if isinstance(st, ast.Assign) and len(st.targets) == 1 and isinstance(st.targets[0], ast.Tuple):
+                vals = expand(st.value) if isinstance(st.value, (ast.GeneratorExp, ast.ListComp)) else (list(st.value.elts) if isinstance(st.value, ast.Tuple) else None)
+                tg = st.targets[0].elts
+                if vals is not None and len(vals) == len(tg) and all(isinstance(t, ast.Name) for t in tg):
+                    used = {n.id for v in vals for n in ast.walk(v) if isinstance(n, ast.Name)}
+                    if not (used & {t.id for t in tg}):  # no swap-like dependence between the two sides
+                        for t, v in zip(tg, vals):
+                            res.append(ast.fix_missing_locations(ast.copy_location(ast.Assign(targets=[t], value=v), st)))
+                        continue
+            res.append(st)
+        return res
+
+    node.body = walk(node.body)
+    out = FuncInfo(fi.module, fi.qualname, node, fi.cls)
+    _norm_cache[id(fi.node)] = out
+    return out
+
+
+def constant_tuples(fi: FuncInfo, before: ast.AST) -> Dict[str, ast.expr]:
+    """Locals bound once, at the top level of the function before `before`, to a tuple display (immutable): a dispatch table
+    written ahead of the loop that walks over it reads like the literal it is."""
+    out: Dict[str, ast.expr] = {}
+    for st in fi.node.body:
+        if st is before:
+            break
+        if isinstance(st, (ast.Assign, ast.AnnAssign)) and st.value is not None and isinstance(st.value, ast.Tuple):
+            t = st.targets[0] if isinstance(st, ast.Assign) else st.target
+            if isinstance(t, ast.Name) and len(astq.assignments(fi.node, t.id)) == 1:
+                out[t.id] = copy.deepcopy(st.value)
+    return out
+
+
+def new_helpers(repo, fi: FuncInfo) -> Dict[str, ast.FunctionDef]:
+    """Module-level functions that the reference copy of the module does not have and that were not inlined into their callers
+    (a `return` inside a loop ...): their calls are executed symbolically with the caller's values."""
+    ref = getattr(repo, "reference", {}).get(fi.module.name)
+    out = {}
+    for q, f in fi.module.funcs.items():
+        if "." in q or f.node is fi.node or f.decorators:
+            continue
+        if ref is not None and q in ref.funcs:
+            continue
+        out[q] = f.node
+    return out
+
+
 def _pairs_model(chk, fi: FuncInfo, loop: ast.For) -> PairsModel:
     sites = build_sites(fi, loop, chk.repo)
     for need in ("atom", "type", "residue"):
         have = [k for v in sites.maps.values() for k in (v[3] if isinstance(v, tuple) and v[0] == "record" else (v if isinstance(v, list) else [v]))]
         if need not in have:
             raise NotReadable(f"no dictionary keyed by the point stores the {need} of a site")
-    ex = SX.Executor(nonnull=sites.nonnull, rewrite=sites.rewrite)
-    paths = ex.run(loop.body)
-    appended = sorted({e.recv for p in paths for e in p.effects if e.method == "append" and e.kind == "call" and e.recv in sites.nonnull})
+    ex = SX.Executor(nonnull=sites.nonnull, rewrite=sites.rewrite, helpers=new_helpers(chk.repo, fi))
+    paths = ex.run(loop.body, constant_tuples(fi, loop))
+    # lists the pair loop appends to: a local list, or a member of a local dict of lists (`contacts[kind].append(...)`)
+    appended = sorted({e.recv for p in paths for e in p.effects if e.method == "append" and e.kind == "call" and e.recv.split("[")[0] in sites.nonnull and "." not in e.recv})
     # classification of the three stores by what consumes them
     bph = br = hb = None
     label_loop = select_loop = None
     labels = None
     body = fi.node.body
-    after = body[body.index(loop) + 1 :] if loop in body else []
+    k_loop = body.index(loop) if loop in body else len(body)
+    after = normalised(fi).node.body[k_loop + 1 :]  # same top-level positions up to the loop: the copy only rewrites statements, it splits some after it
     for st in ast.walk(ast.Module(body=list(after), type_ignores=[])):
         if isinstance(st, ast.Call) and astq.callee_name(st) == "merge_and_clean_bph_br" and st.args:
-            names = [n.id for n in ast.walk(st.args[0]) if isinstance(n, ast.Name) and n.id in appended]
+            arg_text = norm(st.args[0])
+            names = [a for a in appended if (a in arg_text and "[" in a) or any(isinstance(n, ast.Name) and n.id == a for n in ast.walk(st.args[0]))]
             if len(names) != 1:
                 continue
             # which constructor consumes the result
@@ -411,7 +505,7 @@ def _pairs_model(chk, fi: FuncInfo, loop: ast.For) -> PairsModel:
                 if isinstance(a, (ast.For, ast.Assign, ast.AnnAssign, ast.Return, ast.Expr)):
                     uses = any(isinstance(n, ast.Name) and n.id == tgt for n in ast.walk(a)) if tgt else any(x is st for x in ast.walk(a))
                     if uses:
-                        cons |= {astq.callee_name(c) for c in ast.walk(a) if isinstance(c, ast.Call)} & {"BasePhosphate", "BaseRibose"}
+                        cons |= ({astq.callee_name(c) for c in ast.walk(a) if isinstance(c, ast.Call)} | {n.id for n in ast.walk(a) if isinstance(n, ast.Name)}) & {"BasePhosphate", "BaseRibose"}
             if cons == {"BasePhosphate"}:
                 bph = names[0]
             elif cons == {"BaseRibose"}:
@@ -1047,7 +1141,8 @@ def check_selection(chk, fi: FuncInfo, m: PairsModel, fold, c: Dict[str, Any]) -
     sl = m.select_loop
     if sl is None or m.labels is None:
         raise NotReadable("selection loop over Counter(...).most_common() not found")
-    inl = Inliner(fi.node)
+    nfi = normalised(fi)  # the loops of the model are statements of this copy
+    inl = Inliner(nfi.node)
     src = inl.inline(sl.iter, sl)
     chk.expect(norm(src) == f"Counter({m.labels}).most_common()", "select-source", fi.site(sl), "candidates = Counter(labels).most_common(): every label with its contact count, best supported first", f"selection iterates `{norm(src)}`, not all labels with their counts", K(fi, "select-source"), found=norm(src))
     if not (isinstance(sl.target, ast.Tuple) and len(sl.target.elts) == 2 and isinstance(sl.target.elts[1], ast.Name)):
@@ -1217,7 +1312,7 @@ def check_selection(chk, fi: FuncInfo, m: PairsModel, fold, c: Dict[str, Any]) -
     if "select-min-contacts" not in hit:
         want = {n: n >= need for n in range(0, 6)}
         chk.expect(reported_for == want, "select-min-contacts", fi.site(sl), f"with free edges a label is reported iff it has at least {need} contacts (counts 0..5 evaluated)", f"the count threshold does not report exactly the labels with at least {need} contacts", K(fi, "min-contacts"), expected=want, found=reported_for)
-    binds = astq.assignments(fi.node, occ_name)
+    binds = astq.assignments(nfi.node, occ_name)
     init = [v for s, v in binds if v is not None]
     inside = [s for s, v in binds if any(s is n for n in ast.walk(sl))]
     if inside:
